@@ -12,13 +12,14 @@ using namespace c16;
 namespace
 {
 // calibrated constants (worst observed ratio on >= 1e7 pristine cases in brackets)
-const LD C_CORNER = 16;  // [<= 1.3]
-const LD C_P2S    = 24;  // [<= 2.1]
-const LD C_RAY    = 32;  // [<= 2.7]
-const LD C_DEPTH  = 32;  // [<= 2.6]
-const LD C_RADIUS = 16;  // [<= 1.5]
-const LD C_FOV    = 32;  // [<= 3.3]
-const LD C_WINDOW = 16;  // [<= 1.6]
+// (thorough run, 1.5e7..6e7 frusta per sub-check and type)
+const LD C_CORNER = 16;  // [1.67]
+const LD C_P2S    = 24;  // [1.80]
+const LD C_RAY    = 32;  // [2.52]
+const LD C_DEPTH  = 32;  // [2.24]
+const LD C_RADIUS = 16;  // [1.56]
+const LD C_FOV    = 32;  // [1.84; fov before/after modifyNearAndFar is allowed 2*C_FOV, worst 2.75]
+const LD C_WINDOW = 16;  // [1.57]
 
 template <class T>
 std::string
@@ -244,11 +245,15 @@ sub_depth (Ctx& c, uint64_t idx)
         }
     }
     // integer z ranges
-    static const long ZR[5][2] = {{0, 255}, {0, 65535}, {0, 16777215}, {-1073741824L, 1073741823L}, {0, 2147483647L}};
-    int        zi = (int) ((idx >> 8) % 5);
+    static const long ZR[6][2] = {{0, 255}, {0, 65535}, {0, 16777215}, {-1073741824L, 1073741823L}, {0, 2147483647L}, {0, 4294967295L}};
+    int        zi = (int) ((idx >> 8) % 6);
     long       zmin = ZR[zi][0], zmax = ZR[zi][1], zdiff = zmax - zmin;
-    static const char* const zn[5] = {"zrange_8bit", "zrange_16bit", "zrange_24bit", "zrange_signed_31bit", "zrange_31bit"};
+    static const char* const zn[6] = {"zrange_8bit", "zrange_16bit", "zrange_24bit", "zrange_signed_31bit", "zrange_31bit", "zrange_32bit"};
     c.cls (zn[zi]);
+    // zmax - zmin >= 2^31 (a 32-bit depth buffer): ZToDepth keeps the difference in an `int`.  Failures of
+    // ZToDepth on that range get one key of their own; DepthToZ is judged as on every other range.
+    const bool  r32 = zi == 5;
+    auto zkey = [&] (const char* slot) { return r32 ? key<T> ("ZToDepth", "zrange_32bit_zdiff_truncated_to_int") : key<T> ("ZToDepth", (std::string (slot) + kind).c_str ()); };
     {
         long z = r.range (zmin, zmax);
         int  sp = (int) r.range (0, 9);
@@ -259,16 +264,16 @@ sub_depth (Ctx& c, uint64_t idx)
         LD Zp  = 2 * (LD) (z - zmin) / zdiff - 1;
         c.eval ();
         if (std::isnan ((double) dep) || (dep == 0 && !fc.ortho))
-            c.fail (key<T> ("ZToDepth", "nan_or_zero"), idx, [&] { return Obj ().raw ("frustum", fc.js ()).kv ("z", z).kv ("zmin", zmin).kv ("zmax", zmax).kv ("got", (double) dep).str (); });
+            c.fail (r32 ? zkey ("") : key<T> ("ZToDepth", "nan_or_zero"), idx, [&] { return Obj ().raw ("frustum", fc.js ()).kv ("z", z).kv ("zmin", zmin).kv ("zmax", zmax).kv ("got", (double) dep).str (); });
         else
         {
             LD ra = fabsl (zndc (dep) - Zp) / (eps * kz);
             c.worst ("ZToDepth.vs_analytic.ratio", (double) ra, idx, [&] { return fc.js (); });
             if (!(ra <= C_DEPTH))
-                c.fail (key<T> ("ZToDepth", (std::string ("vs_analytic_") + kind).c_str ()), idx, [&] {
+                c.fail (zkey ("vs_analytic_"), idx, [&] {
                     return Obj ().raw ("frustum", fc.js ()).kv ("z", z).kv ("zmin", zmin).kv ("zmax", zmax).kv ("got_depth", (double) dep).kv ("want_depth", -depth_of_zndc (fc, Zp)).kv ("ndc_of_got", zndc (dep)).kv ("want_ndc", Zp).str ();
                 });
-            if (std::isfinite ((double) dep))
+            if (std::isfinite ((double) dep) && ra <= C_DEPTH) // (a wrong depth would only be reported twice, and may not fit a long)
             {
                 long z2 = fr.DepthToZ (dep, zmin, zmax);
                 LD   slack = C_DEPTH * eps * kz * zdiff;
@@ -307,7 +312,7 @@ sub_depth (Ctx& c, uint64_t idx)
         c.eval ();
         c.worst ("ZToDepth(DepthToZ(d)).excess_over_one_quantum.per_eps_kz", (double) (rq > 0 ? rq : 0), idx, [&] { return fc.js (); });
         if (!(rq <= C_DEPTH))
-            c.fail (key<T> ("ZToDepth", (std::string ("roundtrip_depth_") + kind).c_str ()), idx, [&] {
+            c.fail (zkey ("roundtrip_depth_"), idx, [&] {
                 return Obj ().raw ("frustum", fc.js ()).kv ("depth", (double) dT).kv ("zmin", zmin).kv ("zmax", zmax).kv ("z", z).kv ("depth_back", (double) d2).kv ("ndc_diff", dn).kv ("quantum", 2.0 / (double) zdiff).str ();
             });
     }
@@ -507,8 +512,8 @@ MON_SUB_IDX (sub_p2s<float>, "point_to_screen_float", 1000000, 30000000).req (RE
 MON_SUB_IDX (sub_p2s<double>, "point_to_screen_double", 1000000, 30000000).req (REQF).over ("as point_to_screen_float, double");
 MON_SUB_IDX (sub_ray<float>, "screen_to_ray_float", 1000000, 30000000).req (REQF).over ("random frusta x 2 screen positions in [-1.5,1.5]^2 x 3 depths: points of the ray project to s; the analytic pre-image of s lies on the ray");
 MON_SUB_IDX (sub_ray<double>, "screen_to_ray_double", 1000000, 30000000).req (REQF).over ("as screen_to_ray_float, double");
-MON_SUB_IDX (sub_depth<float>, "depth_float", 2000000, 60000000).req ({C16_FRUSTUM_CLASSES, "z_at_near", "z_at_far", "zrange_8bit", "zrange_16bit", "zrange_24bit", "zrange_signed_31bit", "zrange_31bit"}).over ("random frusta: normalizedZToDepth vs analytic/matrix depth; ZToDepth on 5 integer z ranges; DepthToZ(ZToDepth(z)) within 1 unit; ZToDepth(DepthToZ(d)) within one quantum");
-MON_SUB_IDX (sub_depth<double>, "depth_double", 2000000, 60000000).req ({C16_FRUSTUM_CLASSES, "z_at_near", "z_at_far", "zrange_8bit", "zrange_16bit", "zrange_24bit", "zrange_signed_31bit", "zrange_31bit"}).over ("as depth_float, double");
+MON_SUB_IDX (sub_depth<float>, "depth_float", 2000000, 60000000).req ({C16_FRUSTUM_CLASSES, "z_at_near", "z_at_far", "zrange_8bit", "zrange_16bit", "zrange_24bit", "zrange_signed_31bit", "zrange_31bit", "zrange_32bit"}).over ("random frusta: normalizedZToDepth vs analytic/matrix depth; ZToDepth on 6 integer z ranges (8..32 bit); DepthToZ(ZToDepth(z)) within 1 unit; ZToDepth(DepthToZ(d)) within one quantum");
+MON_SUB_IDX (sub_depth<double>, "depth_double", 2000000, 60000000).req ({C16_FRUSTUM_CLASSES, "z_at_near", "z_at_far", "zrange_8bit", "zrange_16bit", "zrange_24bit", "zrange_signed_31bit", "zrange_31bit", "zrange_32bit"}).over ("as depth_float, double");
 MON_SUB_IDX (sub_radius<float>, "radius_float", 500000, 15000000).req (REQF).over ("random frusta x 4 (point, radius): worldRadius(screenRadius(r)) = r = screenRadius(worldRadius(r)); perspective: screenRadius = r*near/depth");
 MON_SUB_IDX (sub_radius<double>, "radius_double", 500000, 15000000).req (REQF).over ("as radius_float, double");
 MON_SUB_IDX (sub_fov<float>, "fov_set_modify_float", 1000000, 30000000).req ({C16_FRUSTUM_CLASSES, "set_fovx", "set_fovy", "modify_orthographic", "modify_perspective"}).over ("random frusta: fovx/fovy/aspect vs window angles; set(near,far,fovx|fovy,aspect) reproduces its arguments; modifyNearAndFar keeps the field of view (perspective) / the window (orthographic)");
